@@ -9,8 +9,11 @@ package main
 import (
 	"fmt"
 	"strings"
+	"time"
 
 	"github.com/rs/zerolog"
+
+	lunar_context "lunar/engine/streams/lunar-context"
 
 	c "verifharness/common"
 )
@@ -285,7 +288,9 @@ func genRandom(r *c.Rng, hooked bool) Case {
 				s.do(Op{K: OpGate, B: r.Chance(1, 2)})
 			}
 		default:
-			if !w.ticking && 3*i > 2*steps {
+			// shutdown at any point: mostly late (what follows a drain is short),
+			// sometimes early (arrivals, removals and held-back waiters after it)
+			if !w.ticking && (3*i > 2*steps || r.Chance(1, 4)) {
 				s.do(Op{K: OpDrain})
 			}
 		}
@@ -441,6 +446,38 @@ func mergeFamilies() []mergeFamily {
 	return fams
 }
 
+// ---------------------------------------------------------------- trusted clock assumption
+
+// burstFIFO checks, on the real in-memory queue, the one assumption about the
+// environment that the FIFO theorems rest on: the stamps that consecutive
+// Enqueue calls take (time.Now().UnixNano()) are strictly increasing, so that
+// requests of one priority pushed back to back come out in the order they went
+// in.  (With equal stamps container/heap's order is unspecified; with a clock
+// stepping back it is reversed: theories/C06/Property.v,
+// C06_fifo_needs_increasing_stamps.)  Monitor only: no model is involved.
+func burstFIFO(o *c.Out) {
+	mem := lunar_context.NewMemoryState[string]()
+	reps := o.Scale(40, 400, 100)
+	const n = 250
+	for rep := 0; rep < reps; rep++ {
+		q := mem.NewQueue(fmt.Sprintf("c06burst%d", rep), time.Second)
+		for i := 0; i < n; i++ {
+			_ = q.Enqueue(fmt.Sprintf("b%03d", i), 1)
+		}
+		for i := 0; i < n; i++ {
+			if got := q.DequeueIfValueRelevant(); got != fmt.Sprintf("b%03d", i) {
+				o.Hit(c.Hit{Suite: "forced", Index: -1, Signature: "fifo-lost:equal-stamps",
+					Demanded: "within one priority earlier arrivals are admitted before later ones",
+					Observed: fmt.Sprintf("burst %d: %d back-to-back Enqueue calls of one priority; position %d came out as %s", rep, n, i, got),
+					Case:     map[string]any{"burst": rep, "n": n, "position": i, "got": got}})
+				break
+			}
+		}
+		o.MonitorChecked(1)
+	}
+	o.CountN("burst-enqueues", reps*n)
+}
+
 // ---------------------------------------------------------------- main
 
 func main() {
@@ -453,6 +490,8 @@ func main() {
 		"(quota answers scripted, split at queue.before_signal) / advance (around TTL edges) / scan / gate (holds " +
 		"queue.before_remove) / drain over random settings (queue size -1..4, shared size, TTL 1..3 s, priority groups); " +
 		"forced: the named interleavings of the theorems plus merges of arrival, loop, TTL and drain programs; " +
+		"burst (monitor only): back-to-back Enqueue calls of one priority on the real in-memory queue come out in order " +
+		"(the trusted strictly-increasing-stamps assumption); " +
 		"distinct = distinct (settings, operations, observations); non-trivial = at least one admission, one " +
 		"rejection or time-out, and one refused head put back")
 
@@ -464,6 +503,8 @@ func main() {
 			Demanded: "yield points queue.slot_checked / queue.before_signal / queue.before_remove present so that the interleavings of C06 can be forced",
 			Observed: "missing: " + strings.Join(missing, ", "), Case: map[string]any{"missing": missing}})
 	}
+
+	burstFIFO(o)
 
 	var k Case
 	if _, ok := o.ReplayCase(&k); ok {
